@@ -1120,7 +1120,9 @@ static PyObject * matrix_imag(matrix *self) {
 
   matrix *ret;
   if (self->id != COMPLEX) {
-    PyObject *a = PyFloat_FromDouble(0);
+    PyObject *a = (self->id == INT ? Py_BuildValue("i", 0) :
+        PyFloat_FromDouble(0));
+    if (!a) return NULL;
     ret = Matrix_NewFromNumber(self->nrows, self->ncols, self->id, a, 2);
     Py_DECREF(a);
     if (!ret) return NULL;
